@@ -83,8 +83,78 @@ def check_names(run, okr, okm):
                 'production': p, 'string': s, 'implementation': r})
     if d04:
         run.known_hits['D04'] = ('production name/pi_target accepts a string whose first character is a NameChar but not a NameStartChar (or the empty string)', d04)
+    check_names_in_context(run, okm, [s for s in strings if len(s) <= 2], is_nc, is_nsc)
     run.count('names:cases', len(cases))
     run.sample({'names_productions': PRODS, 'strings': len(strings), 'example': ''.join(map(chr, strings[len(strings) // 2]))})
+
+# the productions that USE a name: (production, text before the name, text after it, kind of name expected there,
+# is the position one of finding D04 (served by the production `name`, which accepts NameChar* there))
+CONTEXTS = [
+    ('empty_entity_tag', '<', '/>', 'qname', False), ('stag', '<', ' a="v">', 'qname', False), ('etag', '</', '>', 'qname', False),
+    ('attribute', '', '="v"', 'qname', False), ('att_def', ' ', ' CDATA #IMPLIED', 'qname', False),
+    ('attlist_decl', '<!ATTLIST ', ' a CDATA #IMPLIED>', 'qname', False), ('attlist_decl', '<!ATTLIST e ', ' CDATA "d">', 'qname', False),
+    ('element_decl', '<!ELEMENT ', ' EMPTY>', 'qname', False), ('mixed', '(#PCDATA|', ')*', 'qname', False),
+    ('doctype_decl', '<!DOCTYPE ', '>', 'qname', False), ('enumeration', '(', ')', 'nmtoken', False),
+    ('entity_ref', '&', ';', 'name', True), ('pe_reference', '%', ';', 'name', True), ('pi', '<?', ' d?>', 'pi_target', True),
+    ('notation_decl', '<!NOTATION ', ' SYSTEM "s">', 'name', True), ('entity_decl', '<!ENTITY ', ' "v">', 'name', True),
+    ('notation_type', 'NOTATION (', ')', 'name', True), ('ndata_decl', ' NDATA ', '', 'name', True),
+]
+LOOKALIKES = ['xmlns', 'xmlnsx', 'xmlns-id', 'xmlns.v', 'xmlns1', 'xmlnsx:y', 'xmlns:a', 'xmlns:', 'xml:lang', 'a:xmlns', 'XMLNS', 'xmln', 'xml',
+              'xmlx', 'a:b', 'a:', ':a', 'a:b:c', 'a-b', 'a.b', 'ab', 'a1']
+
+def check_names_in_context(run, okm, strings, is_nc, is_nsc):
+    """the same name strings at every place where the grammar uses a name (tags, attributes, attribute-list and
+    element declarations, references, PI targets, notation and entity names): the enclosing production consumes the
+    whole text iff the string is a name of the kind that place requires"""
+    names = list(strings) + [tuple(ord(c) for c in w) for w in LOOKALIKES]
+    # the empty name is covered by the productions themselves; white space and '<' around a name belong to the
+    # enclosing production (optional S), not to the name
+    names = [n for n in names if n and 0x20 not in n and 0x3C not in n]
+    cases, meta = [], []
+    for prod, pre, post, kind, d04 in CONTEXTS:
+        for n in names:
+            txt = [ord(c) for c in pre] + list(n) + [ord(c) for c in post]
+            cases.append((prod, txt, 'names-in-context')); meta.append((prod, pre, post, kind, d04, n))
+    if okm:
+        rust, model = pegcorr.run_cases(run, 'xml', cases)
+    else:
+        rust, model = lib.run_bin(lib.rust_bin(), ['prod'], ['xml %s %s' % (p, ','.join(map(str, s))) for p, s, _ in cases], shards=8)[1], None
+    kinds = sorted({m[3] for m in meta} | {'nmtoken'})
+    want = {}
+    for k in kinds:
+        ns = sorted({m[5] for m in meta if m[3] == k or k == 'nmtoken'})
+        rc, out = lib.run_bin(lib.spec_bin('chars'), ['names'], ['%s %s' % (k, ','.join(map(str, n))) for n in ns], shards=8)
+        for n, o in zip(ns, out):
+            want[(k, n)] = (o == '1')
+    bad_model = d04n = 0
+    for i, ((prod, txt, _), (_, pre, post, kind, d04, n)) in enumerate(zip(cases, meta)):
+        r = rust[i] if i < len(rust) else 'crash'
+        run.evaluations += 1
+        run.nontrivial.add(('names-in-context', prod, pre, n))
+        accepted = (r == 'ok %d' % len(txt))
+        if model is not None:
+            m = model[i] if i < len(model) else 'crash'
+            if m != r:
+                bad_model += 1
+                if bad_model <= 3:
+                    run.tie_breaks.append('names in context: production %s on %r: implementation %r, model %r' % (prod, ''.join(map(chr, txt)), r, m))
+        w = want.get((kind, n))
+        if w is None or accepted == w:
+            continue
+        if accepted and d04 and n[0] in is_nc and is_nc[n[0]] and not is_nsc[n[0]]:
+            # D04 exactly: a string of NameChars (= an Nmtoken) that does not begin with a NameStartChar, at a
+            # position served by the production `name`
+            if want.get(('nmtoken', n)):
+                d04n += 1
+                continue
+        run.failing_inputs.append({'property': 'C18', 'class': 'names-in-context:' + prod,
+            'what': 'production %s %s %r: the name %r %s a %s' % (prod, 'consumes' if accepted else 'does not consume', ''.join(map(chr, txt)),
+                    ''.join(map(chr, n)), 'is not' if accepted else 'is', kind),
+            'production': prod, 'string': txt, 'name': list(n), 'implementation': r})
+    if d04n:
+        what, k = run.known_hits.get('D04', ('production name/pi_target accepts a string whose first character is a NameChar but not a NameStartChar (or the empty string)', 0))
+        run.known_hits['D04'] = (what, k + d04n)
+    run.count('names-in-context:cases', len(cases))
 
 def replay_case(d):
     s = d['string']
